@@ -183,7 +183,7 @@ func (a *Agent) handleICMPOpenAck(peerID identity.AgentID, frame *protocol.Frame
 
 	// Check if this is a relay response. Relay entries are immutable once
 	// inserted, so reading fields after LookupDownstream returns is safe.
-	if relay := a.icmpRelay.LookupDownstream(frame.StreamID); relay != nil && peerID == relay.DownstreamPeer {
+	if relay := a.icmpRelay.LookupDownstreamFrom(frame.StreamID, peerID); relay != nil && peerID == relay.DownstreamPeer {
 		a.logger.Debug("relaying ICMP_OPEN_ACK upstream",
 			logging.KeyStreamID, relay.UpstreamID,
 			"upstream_peer", relay.UpstreamPeer.ShortString())
@@ -419,7 +419,7 @@ func (a *Agent) handleICMPEcho(peerID identity.AgentID, frame *protocol.Frame) {
 	// Check if this is a relay. Relay entries are immutable once inserted,
 	// so reading entry fields after LookupBoth returns is safe even though
 	// the entry could be removed concurrently.
-	relayUp, relayDown := a.icmpRelay.LookupBoth(frame.StreamID)
+	relayUp, relayDown := a.icmpRelay.LookupBoth(frame.StreamID, peerID)
 
 	if relayUp != nil && peerID == relayUp.UpstreamPeer {
 		// Forward downstream
